@@ -320,7 +320,7 @@ def run(ctx):
     for n in RESET_BENCHES:
         if ctx.only and not ctx.only.search(n):
             continue
-        ctx.add(n, 14 if ctx.tier == "quick" else 24, timeout=600, diff_cycles=8)
+        ctx.add(n, 14 if ctx.tier == "quick" else 18, timeout=600, diff_cycles=8, min_K=14, chunk=2)
     for n, (kw, kq, kt, tiers) in CONFIGS.items():
         if ctx.only and not ctx.only.search(n):
             continue
